@@ -217,7 +217,7 @@ pub fn reference_history(pf: &[u64], hist: &[Op]) -> Vec<Vec<u64>> {
 }
 
 fn part_b(ctx: &mut Ctx, evals: &mut u64, nontrivial: &mut u64, samples: &mut Vec<Value>) {
-    let depth = if ctx.quick() { 4 } else { 5 };
+    let depth = if ctx.quick() { 4 } else { 6 };
     let prefixes: Vec<Vec<u64>> = if ctx.quick() {
         vec![vec![1, 3], vec![0, 2, 5], vec![2, 5, 7, 11]]
     } else {
@@ -229,6 +229,10 @@ fn part_b(ctx: &mut Ctx, evals: &mut u64, nontrivial: &mut u64, samples: &mut Ve
     let bad = Mutex::new(Vec::<(String, String, Value)>::new());
     for pf in &prefixes {
         for len in 1..=depth {
+            // depth 6 on the first two prefixes only (3.0e6 histories each)
+            if len == 6 && pf != &prefixes[0] && pf != &prefixes[2] {
+                continue;
+            }
             let total = (alpha.len() as u64).pow(len as u32);
             (0..total).into_par_iter().for_each(|idx| {
                 let sel = crate::props::uni::product_index(idx, alpha.len(), len);
@@ -285,7 +289,7 @@ pub fn run(ctx: &mut Ctx) -> (String, Value, Vec<String>) {
         "rule": "(a) every super-additive delta-min prefix of the box x every extrapolate / extrapolate_steps / extrapolate_with_bound argument (non-trivial = the prefix actually grew); (b) every operation history up to the stated depth over a 12-letter alphabet on two clones sharing the cache, replayed on fresh objects and compared with an eagerly extrapolated Curve (non-trivial = history mixes a beyond-prefix query with iterator use)",
         "extrapolation_cases": a_evals,
         "histories": evals - a_evals,
-        "history_depth": if ctx.quick() { 4 } else { 5 },
+        "history_depth": if ctx.quick() { 4 } else { 6 },
         "samples": samples,
         "exhaustive": true,
     });
